@@ -370,6 +370,7 @@ func (pid *grainPID) runTurn(w *worker) {
 		return
 	}
 
+	verifTurnEnter(pid)
 	budget := w.dispatcher.throughput
 	for range budget {
 		grainContext := pid.dequeueResponse()
@@ -379,13 +380,16 @@ func (pid *grainPID) runTurn(w *worker) {
 		}
 
 		if grainContext == nil {
+			verifTurnExit(pid)
 			if pid.finishOrReclaim() {
 				return
 			}
+			verifTurnEnter(pid)
 			continue
 		}
 		pid.dispatchOne(grainContext)
 	}
+	verifTurnExit(pid)
 	pid.schedState.YieldToScheduled()
 	w.reschedule(pid)
 }
